@@ -574,14 +574,42 @@ func binop(x *ssa.BinOp, a, b Val) Val {
 			r.Lo, r.Hi = a.Lo<<n, a.Hi<<n
 		}
 		return r.normalize()
-	case token.ADD, token.SUB:
+	case token.ADD, token.SUB, token.MUL, token.QUO, token.REM:
 		ca, okA := a.IsConst()
 		cb, okB := b.IsConst()
 		if okA && okB {
-			if x.Op == token.ADD {
+			switch x.Op {
+			case token.ADD:
 				return Const((ca+cb)&mask(w), w)
+			case token.SUB:
+				return Const((ca-cb)&mask(w), w)
+			case token.MUL:
+				return Const((ca*cb)&mask(w), w)
+			case token.QUO, token.REM:
+				if cb == 0 || isSigned(x.X.Type()) && (ca>>63 != 0 || cb>>63 != 0) {
+					fail("division the case does not fix")
+				}
+				if x.Op == token.QUO {
+					return Const((ca/cb)&mask(w), w)
+				}
+				return Const((ca%cb)&mask(w), w)
 			}
-			return Const((ca-cb)&mask(w), w)
+		}
+		if x.Op == token.ADD {
+			// a sum of values with disjoint supports (no position where both may be 1) is their bitwise or
+			disjoint := true
+			for i := 0; i < w; i++ {
+				if a.Bits[i].K != Zero && b.Bits[i].K != Zero {
+					disjoint = false
+				}
+			}
+			if disjoint {
+				r := Val{W: w, Lo: 0, Hi: mask(w)}
+				for i := 0; i < w; i++ {
+					r.Bits[i] = orBit(a.Bits[i], b.Bits[i])
+				}
+				return r.normalize()
+			}
 		}
 		fail("arithmetic on values the case does not fix")
 	case token.EQL, token.NEQ:
@@ -639,4 +667,17 @@ func (v Val) Describe(n int) string {
 		parts = append(parts, v.Bits[i].String())
 	}
 	return strings.Join(parts, " ")
+}
+
+// Octet builds a byte whose low seven bits are the input bits src.0..6 and whose top bit is the given constant
+// (an octet of a variable-length encoding with its continuation flag).
+func Octet(src string, top bool) Val {
+	v := Val{W: 8, Lo: 0, Hi: 255}
+	for i := 0; i < 7; i++ {
+		v.Bits[i] = Bit{K: In, Src: src, Idx: i}
+	}
+	if top {
+		v.Bits[7] = Bit{K: One}
+	}
+	return v.normalize()
 }
